@@ -24,6 +24,8 @@ Local Open Scope Z_scope.
 Fixpoint zlen_acc (l : bytes) (a : Z) : Z := match l with [] => a | _ :: r => zlen_acc r (a + 1) end.
 Definition zlen (l : bytes) : Z := zlen_acc l 0.
 Definition is_nil {A} (l : list A) : bool := match l with [] => true | _ => false end.
+(* linear-time reverse (List.rev is quadratic) *)
+Definition frev {A} (l : list A) : list A := rev_append l [].
 
 (* ================= A. WriteSyncer combinators ================= *)
 
@@ -242,7 +244,7 @@ Definition ascii_space (b : byte) : bool :=
   match b with x09 | x0a | x0b | x0c | x0d | x20 => true | _ => false end.
 Fixpoint drop_space (p : bytes) : bytes :=
   match p with [] => [] | b :: r => if ascii_space b then drop_space r else p end.
-Definition ascii_trim (p : bytes) : bytes := rev (drop_space (rev (drop_space p))).
+Definition ascii_trim (p : bytes) : bytes := frev (drop_space (frev (drop_space p))).
 Definition is_ascii (b : byte) : bool := Z_of_byte b <? 128.
 Definition all_ascii (p : bytes) : bool := forallb is_ascii p.
 Definition trim_space (p oracle : bytes) : bytes := if all_ascii p then ascii_trim p else oracle.
@@ -258,7 +260,7 @@ Definition stdlog_write (v : version) (en : bool) (p oracle : bytes) : Z * Z * l
    if w.markFailed { w.t.Fail() }; return n, nil *)
 Fixpoint drop_nl (p : bytes) : bytes :=
   match p with [] => [] | b :: r => if Byte.eqb b nl then drop_nl r else p end.
-Definition trim_right_nl (p : bytes) : bytes := rev (drop_nl (rev p)).
+Definition trim_right_nl (p : bytes) : bytes := frev (drop_nl (frev p)).
 Definition testing_write (mf : bool) (p : bytes) : Z * Z * list bytes * bool :=
   (zlen p, 0, [trim_right_nl p], mf).
 
@@ -441,7 +443,7 @@ Definition spec_comb (e : expr) (p : bytes) (o : sx) : bool :=
 
 (* [l] is [p] without its trailing newlines *)
 Fixpoint all_nl (p : bytes) : bool := match p with [] => true | b :: r => Byte.eqb b nl && all_nl r end.
-Definition ends_nl (l : bytes) : bool := match rev l with b :: _ => Byte.eqb b nl | [] => false end.
+Definition ends_nl (l : bytes) : bool := match frev l with b :: _ => Byte.eqb b nl | [] => false end.
 Fixpoint strip_ok (l p : bytes) : bool :=
   match l, p with
   | [], _ => all_nl p
